@@ -372,9 +372,9 @@ def run(ctx):
     else:
         s = ctx.seed * 1000
         plan = [("t1", s + 1, "inproc", "mem", 60, 8, 80),
-                ("t2", s + 2, "procs", "pebble", 150, 6, 40),
-                ("t3", s + 3, "procs", "rocksdb", 150, 8, 40),
-                ("t4", s + 4, "procs", "pebble", 150, 4, 40),
+                ("t2", s + 2, "procs", "pebble", 130, 6, 40),
+                ("t3", s + 3, "procs", "rocksdb", 130, 8, 40),
+                ("t4", s + 4, "procs", "pebble", 130, 4, 40),
                 ("t5", s + 5, "inproc", "pebble", 90, 8, 40),
                 ("t6", s + 6, "procs", "mem", 120, 6, 40),
                 # long per-key histories (150-200 operations each): only the memoised checker can judge them
